@@ -29,7 +29,7 @@ TRANSPORTS = ["bytesio", "simfile", "path"]
 
 # relative tolerance of the stored representation, by format family
 def fmt_tol(fmt, digits=None):
-    base = fmt.split("_", 1)[1] if fmt.startswith(("zip_", "targz_")) else fmt
+    base = fmt.split("_", 1)[1] if fmt.startswith(("zip_", "targz_", "tarbz2_", "bz2_")) else fmt
     if base in ("obj", "obj_mtl", "off") and digits:
         # the writer was asked for `digits` decimals
         return 10.0 ** -int(digits)
@@ -52,10 +52,10 @@ def fmt_tol(fmt, digits=None):
 
 # formats whose writer stores the colours (measured on the unchanged tree: the writer emits them and the reader returns them)
 CARRIES = {
-    "corner_colors": {"ply", "ply_ascii", "glb", "gltf", "obj", "dict", "dict64", "zip_ply", "zip_glb", "targz_obj"},
-    "face_colors": {"ply", "dict", "dict64", "zip_ply"},  # (the ascii PLY writer deliberately omits face colours)
+    "corner_colors": {"ply", "ply_ascii", "glb", "gltf", "obj", "dict", "dict64", "zip_ply", "zip_glb", "targz_obj", "tarbz2_ply"},
+    "face_colors": {"ply", "dict", "dict64", "zip_ply", "tarbz2_ply"},  # (the ascii PLY writer deliberately omits face colours)
     "colors": {"ply", "xyz", "glb"},
-    "corner_uv": {"ply", "ply_ascii", "obj", "obj_mtl", "zip_obj_mtl", "glb", "gltf", "dae", "zip_ply", "targz_obj"},
+    "corner_uv": {"ply", "ply_ascii", "obj", "obj_mtl", "zip_obj_mtl", "glb", "gltf", "dae", "zip_ply", "targz_obj", "tarbz2_ply"},
     "face_quality": set(),
     "corner_weight": set(),
 }
@@ -93,6 +93,8 @@ def compare_content(got, want, tol_rel, ctx, oracle, fmt, exact=False):
     for key in want:
         if key == "kind":
             continue
+        if key == "n_instances" and fmt in fw.FLATTENS:
+            continue  # a flattening writer stores the placed triangles, not the instances
         if key not in got:
             if key in CARRIES and fmt not in CARRIES[key]:
                 continue  # colours / uv / attributes are demanded only where the format carries them
@@ -133,7 +135,7 @@ class C08(World):
     BLOCK = 50
     RULE = (
         "one evaluation = one seeded geometry (mesh incl. empty/single face/far/tiny/negative coordinates and face or vertex colours, nested instanced "
-        "scene, point cloud, 2D/3D path with lines and arcs, voxel grid) through one of 33 (kind, format) pipes x 3 loader entry points x 3 transports "
+        "scene, point cloud, 2D/3D path with lines and arcs, voxel grid) through one of 36 (kind, format) pipes x 3 loader entry points x 3 transports "
         "(BytesIO, named file object, path on disk) with generation-2 fixpoint; distinct_nontrivial counts distinct (kind, shape, colours, format, route, transport) tuples compared"
     )
     SIM_UNIT = "export/load pipe stages executed"
